@@ -5,7 +5,7 @@ From Coq Require Import Reals ZArith List.
 From Coquelicot Require Import Coquelicot.
 From Celer Require Import Base.Num Base.NumR Base.Vec3
   C08.PropagatorModel C08.PropagatorProofs C08.DriverModel C08.DriverProofs C08.Helix C08.HelixProofs
-  C08.HelixGeneralProofs C08.ControllerProofs C08.HistoryProofs C08.StepperBase Generated.C08_steppers C08.Steppers C08.StepperProofs.
+  C08.HelixGeneralProofs C08.ControllerProofs C08.HistoryProofs C08.ApplierModel C08.ApplierProofs C08.RZMap C08.RZMapProofs C08.StepperBase Generated.C08_steppers C08.Steppers C08.StepperProofs.
 Import ListNotations.
 Local Open Scope R_scope.
 
@@ -385,3 +385,104 @@ Theorem C08_propagator_state_synced :
   List.Forall (fun r => synced G g_pos g_dir (r_g r) (r_state r) /\ 0 < norm (o_mom (r_state r))) rs.
 Proof. exact propagator_state_synced. Qed.
 Print Assumptions C08_propagator_state_synced.
+
+(** ** PropagationApplier: how the propagation result is applied to the track.
+    [propagator_post step p onb] = what C08_propagate_post gives about the
+    propagator's result: 0 < distance <= step, looping -> not boundary, boundary
+    flag = the geometry's on-boundary state.  A stopped track is left alone. *)
+Theorem C08_applier_stopped_untouched :
+  forall (can_loop stable : bool) (energy : R) (thr : lthreshold R) (p : propagation R) (s : simst R),
+  s_step s = 0 -> apply_propagation can_loop p stable energy thr s = (s, 0%nat).
+Proof. exact apply_stopped. Qed.
+Print Assumptions C08_applier_stopped_untouched.
+
+Theorem C08_applier_post :
+  forall (can_loop stable : bool) (energy : R) (thr : lthreshold R) (p : propagation R) (s : simst R) (onb : bool),
+  0 < s_step s -> propagator_post (s_step s) p onb ->
+  let s' := fst (apply_propagation can_loop p stable energy thr s) in
+  snd (apply_propagation can_loop p stable energy thr s) = 1%nat
+  /\ 0 < s_step s' <= s_step s
+  /\ s_step s' = p_dist p
+  /\ (p_boundary p = true -> s_action s' = ABoundary /\ onb = true)
+  /\ (s_action s <> ABoundary -> s_action s' = ABoundary -> p_boundary p = true)
+  /\ (can_loop = true -> p_looping p = true ->
+        s_nloop s' = S (s_nloop s)
+        /\ (s_action s' = ATrackingCut <-> (stable = true /\ is_looping thr (S (s_nloop s)) energy = true))
+        /\ (s_action s' = ATrackingCut \/ s_action s' = APropLimit))
+  /\ (can_loop = true -> p_looping p = false -> s_nloop s' = 0%nat)
+  /\ (can_loop = false -> s_nloop s' = s_nloop s)
+  /\ (andb can_loop (p_looping p) = false -> p_boundary p = false -> p_dist p = s_step s ->
+        s_action s' = s_action s)
+  /\ (andb can_loop (p_looping p) = false -> p_boundary p = false -> p_dist p < s_step s ->
+        s_action s' = APropLimit).
+Proof. exact apply_post. Qed.
+Print Assumptions C08_applier_post.
+
+(** over any run of consecutive looping applications on one slot the counter
+    counts them, a stable track is handed to the tracking cut exactly when the
+    count reaches the threshold of its current energy (C01: the tracking cut
+    deposits the energy), hence no later than max(max_subthreshold_steps, max_steps) *)
+Theorem C08_applier_looping_run :
+  forall (stable : bool) (thr : lthreshold R) (calls : list (acall R)) (n : nat),
+  List.Forall looping_call calls ->
+  let rs := apply_many stable thr n calls in
+  length rs = length calls /\
+  forall k r c, nth_error rs k = Some r -> nth_error calls k = Some c ->
+    s_nloop (fst r) = (n + S k)%nat /\
+    (s_action (fst r) = ATrackingCut <->
+       (stable = true /\ is_looping thr (n + S k) (a_energy c) = true)).
+Proof. exact looping_run_counts. Qed.
+Print Assumptions C08_applier_looping_run.
+
+Theorem C08_applier_looping_stable_track_killed :
+  forall (thr : lthreshold R) (calls : list (acall R)) (n k : nat) r c,
+  List.Forall looping_call calls ->
+  nth_error (apply_many true thr n calls) k = Some r -> nth_error calls k = Some c ->
+  (Nat.max (max_subthreshold_steps thr) (max_steps thr) <= n + S k)%nat ->
+  s_action (fst r) = ATrackingCut.
+Proof. exact looping_stable_track_killed. Qed.
+Print Assumptions C08_applier_looping_stable_track_killed.
+
+(** ** RZMapField::operator(): inside cell (iz, ir) of the map B_z is the linear
+    interpolant in z of the two nodes at the lower r index and the radial
+    component the linear interpolant in r of the two nodes at the lower z index
+    (the code is NOT bilinear); fractions are in [0,1), so every component lies
+    between its two neighbouring node values and equals the node value on a
+    node; outside the map the field is zero *)
+Theorem C08_rzmap_in_cell :
+  forall (gz gr : ugrid R) (fmap : Z -> R * R) (x y z : R) (iz ir : Z),
+  0 < ug_delta gz -> 0 < ug_delta gr -> (iz + 1 < ug_size gz)%Z -> (ir + 1 < ug_size gr)%Z ->
+  let r := sqrt (x * x + y * y) in
+  ug_at gz iz <= z < ug_at gz (iz + 1) -> ug_at gr ir <= r < ug_at gr (ir + 1) ->
+  ug_front gz <= z <= ug_back gz -> ug_front gr <= r <= ug_back gr -> 0 < r ->
+  let fz := (z - ug_at gz iz) / ug_delta gz in
+  let fr := (r - ug_at gr ir) / ug_delta gr in
+  let bz_lo := fst (fmap (rz_id gr iz ir)) in
+  let bz_hi := fst (fmap (rz_id gr (iz + 1) ir)) in
+  let br_lo := snd (fmap (rz_id gr iz ir)) in
+  let br_hi := snd (fmap (rz_id gr iz (ir + 1))) in
+  rzmap_field gz gr fmap (V3 x y z)
+    = V3 (lerp br_lo br_hi fr / r * x) (lerp br_lo br_hi fr / r * y) (lerp bz_lo bz_hi fz)
+  /\ 0 <= fz < 1 /\ 0 <= fr < 1
+  /\ Rmin bz_lo bz_hi <= lerp bz_lo bz_hi fz <= Rmax bz_lo bz_hi
+  /\ Rmin br_lo br_hi <= lerp br_lo br_hi fr <= Rmax br_lo br_hi
+  /\ (z = ug_at gz iz -> lerp bz_lo bz_hi fz = bz_lo)
+  /\ (r = ug_at gr ir -> lerp br_lo br_hi fr = br_lo).
+Proof. exact rzmap_in_cell. Qed.
+Print Assumptions C08_rzmap_in_cell.
+
+Theorem C08_rzmap_outside_zero :
+  forall (gz gr : ugrid R) (fmap : Z -> R * R) (x y z : R),
+  (z < ug_front gz \/ ug_back gz < z \/ ug_back gr < sqrt (x * x + y * y)) ->
+  rzmap_field gz gr fmap (V3 x y z) = V3 0 0 0.
+Proof. exact rzmap_outside. Qed.
+Print Assumptions C08_rzmap_outside_zero.
+
+(** continuity across cells is FALSE: B_z jumps across r grid lines (finding F-C08-6) *)
+Theorem C08_rzmap_continuity_refuted :
+  exists (gz gr : ugrid R) (fmap : Z -> R * R),
+    0 < ug_delta gz /\ 0 < ug_delta gr /\
+    forall eps, 0 < eps -> exists r1 r2, 0 < r1 < r2 /\ r2 - r1 < eps /\
+      vz (rzmap_field gz gr fmap (V3 r2 0 0)) - vz (rzmap_field gz gr fmap (V3 r1 0 0)) = 1.
+Proof. exact rzmap_continuity_refuted. Qed.
+Print Assumptions C08_rzmap_continuity_refuted.
